@@ -1,4 +1,5 @@
 """C07 — Matching is an optimal one-to-one assignment that covers every geometry once."""
+import contextlib
 import itertools
 from fractions import Fraction
 
@@ -16,33 +17,52 @@ THEOREMS = [_T + n for n in [
     "C07_positive_assigned_reported", "C07_reported_affinity", "C07_unpaired_zero",
     "bestValue_upper", "bestValue_attained", "C07_optimal", "C07_optimal_complete",
     "C07_total_le_best", "C07_optimal_of_solver", "C07_empty", "C07_no_overlap_all_unpaired",
-    "C07_holds_iff", "C07_model_holds"]]
-LEVEL_TEXT = ("Lean theorems over the model of match_geometries/_select_matches (scipy's assignment a parameter under the "
-              "explicit ValidAssignment hypothesis): every source and target index occurs exactly once, pairs only with "
-              "positive affinity, reported affinity = matrix entry, unpaired report 0, empty cases; the brute-force optimum "
-              "bestValue is proved to bound every partial injection and to be attained, and the executable predicate `holds` "
-              "is proved equivalent to the property, so that its evaluation on every real output of match_geometries means "
-              "the property (optimality within 2^-40, exact on dyadic matrices).")
+    "C07_holds_iff", "C07_model_holds",
+    # review: optimality by certificate (any size), every valid assignment, the matrix-fill loop, geometry level
+    "C07_weak_duality", "C07_cert_best", "C07_optimal_cert_iff", "C07_optimal_by_cert", "C07_holds_by_cert",
+    "C07_shape_any_valid", "C07_length", "C07_sortEntries_perm", "C07_matrix_is_affinity", "C07_geometries"]]
+LEVEL_TEXT = ("Lean theorems over the model of match_geometries (matrix-fill loop, _select_matches, emission; compute_affinity and "
+              "scipy's assignment are parameters, the latter under the explicit ValidAssignment hypothesis): every source and target "
+              "index occurs exactly once, pairs only with positive affinity, reported affinity = affinity of that pair of geometries, "
+              "unpaired report 0, empty cases (C07_geometries states all of it on the geometries); the brute-force optimum bestValue is "
+              "proved to bound every partial injection and to be attained; weak duality is proved, so that a checked certificate "
+              "(potentials + witness) pins the optimum for matrices of any size (C07_cert_best); the executable predicate `holds` "
+              "(brute force or certificate: C07_holds_by_cert) is proved equivalent to the property, so its evaluation on every real "
+              "output of match_geometries means the property (optimality within 2^-40, exact on dyadic matrices). For every shape "
+              "(n, m) in {0..3}^2 and every answer scipy's contract allows, match_geometries is traced on symbolic affinities and "
+              "proved equal to the model for all rational entries.")
 LEVEL_NOTE = ("Unmodelled: the Hungarian/LAPJV algorithm of scipy.optimize.linear_sum_assignment (its answer is a parameter; "
-              "ValidAssignment and optimality are checked on every answer against the verified brute force, <= 5x5 quick, "
-              "<= 7x7 thorough); compute_affinity (C06) supplies the matrix; binary64 summation inside scipy (tolerance 2^-40). "
-              "Model tied to the code by generator-bounded correspondence (real geometries and stubbed-affinity matrices, "
-              "exhaustive small scopes).")
-TECHNIQUE = ("Lean 4 proof over model with the solver as a parameter; verified brute-force optimum as run-time monitor; "
-             "exhaustive small-scope and random correspondence")
-RULE = ("lists of 0-5 (thorough 0-7) geometries on tie-rich grids, exhaustive lists over a small pool, random geometries of all "
-        "types, exhaustive / random affinity matrices through the real match_geometries with compute_affinity stubbed; "
-        "non-trivial = at least one source and one target; distinct = distinct (operation, input)")
+              "ValidAssignment and optimality are checked on every answer against the verified brute force up to 5x5 quick / 7x7 "
+              "thorough and against a Lean-checked duality certificate beyond); compute_affinity (C06) supplies the matrix; binary64 "
+              "summation inside scipy (tolerance 2^-40). Beyond the symbolic ties at fixed small shapes the model is tied to the code by "
+              "generator-bounded correspondence (real geometries, stubbed-affinity matrices, stubbed solver answers; exhaustive small "
+              "scopes). The symbolic ties replace numpy's zeros/array, float, compute_affinity and linear_sum_assignment inside the "
+              "traced module by stubs.")
+TECHNIQUE = ("Lean 4 proof over model with the solver as a parameter; verified brute-force optimum and Lean-checked LP-duality "
+             "certificates as run-time monitors; symbolic-trace equality obligations at fixed shapes; exhaustive small-scope and "
+             "random correspondence")
+RULE = ("lists of 0-5 (thorough 0-7) geometries on tie-rich grids (near-miss instants, slivers, zero-width boxes, aliased lists), "
+        "long lists up to 10 (16), exhaustive lists over a small pool, random geometries of all types, exhaustive / random affinity "
+        "matrices (up to 12x12, thorough 25x25, tiny entries) through the real match_geometries with compute_affinity stubbed, and "
+        "with the solver's answer stubbed as well; non-trivial = at least one source and one target; distinct = distinct "
+        "(operation, input)")
 TRUSTED = ["scipy.optimize.linear_sum_assignment (answer checked per case: ValidAssignment, optimal within tolerance)",
            "compute_affinity as the supplier of the matrix (property C06)",
-           "the stub replacing compute_affinity in the matrix operation (a table lookup)"]
+           "the stubs replacing compute_affinity (a table lookup) and linear_sum_assignment (a given answer) in the matrix / solver "
+           "operations, and numpy zeros/array + float in the symbolic traces (object arrays holding symbolic numbers)",
+           "nothing about the certificate generator (exact Hungarian method in the harness): Lean checks every certificate"]
 ASSUMPTIONS = ["scipy's answer is a valid assignment (monitored on every case)",
                "optimality is checked up to 2^-40 on real geometries (scipy sums binary64 values, the model exact rationals), "
-               "exactly on dyadic matrices"]
-NOT_COMPARED = ["order of the yielded matches (compared as a sorted multiset)",
+               "exactly on dyadic matrices",
+               "ordered-field semantics for the symbolic ties (no rounding)"]
+NOT_COMPARED = ["order of the yielded matches (compared as a sorted multiset; the symbolic ties compare sorted lists, "
+                "C07_sortEntries_perm)",
                 "tie-breaking among equally good assignments (an output that differs from the model's only by the "
                 "solver's choice among optimal assignments is accepted when it satisfies `holds` and equals the model "
-                "run on its own pairs)"]
+                "run on its own pairs)",
+                "behaviour when the solver's answer violates scipy's contract (repeated row, index out of range): modelled "
+                "(LoopErr), exercised, agreement only tallied",
+                "types of the yielded indices (int vs numpy integer) and the sign of a zero affinity"]
 
 TOL = Fraction(1, 2 ** 40)
 _CTX = None
@@ -85,7 +105,11 @@ def _solve(matrix_f):
 
 # ---------------------------------------------------------------- real geometries
 def _geoms(inp):
-    return [gen_geom.to_data(g) for g in inp["source"]], [gen_geom.to_data(g) for g in inp["target"]]
+    src = [gen_geom.to_data(g) for g in inp["source"]]
+    if inp.get("alias"):
+        # the very same list object on both sides (inp["target"] repeats inp["source"])
+        return src, src
+    return src, [gen_geom.to_data(g) for g in inp["target"]]
 
 
 def _impl_match(inp):
@@ -112,31 +136,208 @@ def _matrix_of(inp):
     return _CACHE[k]
 
 
+def _geoms_args(inp):
+    """request for `matchGeometries`: the lists as indices into the pool of distinct geometries and the table of
+    compute_affinity on the pool; the model fills the matrix itself (`fillMatrix`)"""
+    a = _matrix_of(inp)
+    pool = {}
+    si = [pool.setdefault(jkey(g), len(pool)) for g in inp["source"]]
+    ti = [pool.setdefault(jkey(g), len(pool)) for g in inp["target"]]
+    table = [["0"] * len(pool) for _ in pool]
+    for i, p_ in enumerate(si):
+        for j, q_ in enumerate(ti):
+            table[p_][q_] = a["matrix"][i][j]
+    return {"source": si, "target": ti, "table": table, "assigned": a["assigned"]}
+
+
 # ---------------------------------------------------------------- stubbed affinity (arbitrary matrices)
 def _impl_matrix(inp):
     """the real match_geometries with compute_affinity replaced by a lookup in the given matrix"""
-    from soundevent import data
-    import soundevent.evaluation.match as M
     mat = [[_f(x) for x in row] for row in inp["matrix"]]
-    src = [data.TimeStamp(coordinates=float(i)) for i in range(inp["n"])]
-    tgt = [data.TimeStamp(coordinates=float(j)) for j in range(inp["m"])]
-    ids_s = {id(g): i for i, g in enumerate(src)}
-    ids_t = {id(g): j for j, g in enumerate(tgt)}
+    src, tgt, ids_s, ids_t = _stub_geoms(inp["n"], inp["m"])
 
     def stub(g1, g2, *a, **kw):
         return mat[ids_s[id(g1)]][ids_t[id(g2)]]
-    orig = M.compute_affinity
-    M.compute_affinity = stub
-    try:
+    with _patched(compute_affinity=stub) as M:
         out = list(M.match_geometries(src, tgt))
-    finally:
-        M.compute_affinity = orig
     return {"val": _canon(out)}
 
 
 def _matrix_args(inp):
     mf = np.array([[_f(x) for x in row] for row in inp["matrix"]], dtype=float).reshape(inp["n"], inp["m"])
     return {"n": inp["n"], "m": inp["m"], "matrix": inp["matrix"], "assigned": _solve(mf)}
+
+
+# ---------------------------------------------------------------- replacing names the code reaches
+_MODS = []
+
+
+@contextlib.contextmanager
+def _patched(**repl):
+    """replace `name` wherever match_geometries may look it up (its own module, the affinity module, the
+    package, scipy.optimize): a rewrite that reaches the same function through another of these names
+    keeps the stubs effective"""
+    if not _MODS:
+        import importlib
+        for mn in ("soundevent.evaluation.match", "soundevent.evaluation.affinity", "soundevent.evaluation", "scipy.optimize"):
+            try:
+                _MODS.append(importlib.import_module(mn))
+            except Exception:  # noqa: BLE001
+                pass
+    mods = _MODS
+    saved = []
+    for name, fn in repl.items():
+        for mod in mods:
+            if hasattr(mod, name):
+                saved.append((mod, name, getattr(mod, name)))
+                setattr(mod, name, fn)
+    try:
+        yield mods[0]
+    finally:
+        for mod, name, old in reversed(saved):
+            setattr(mod, name, old)
+
+
+def _stub_geoms(n, m):
+    from soundevent import data
+    src = [data.TimeStamp(coordinates=float(i)) for i in range(n)]
+    tgt = [data.TimeStamp(coordinates=float(j)) for j in range(m)]
+    return src, tgt, {id(g): i for i, g in enumerate(src)}, {id(g): j for j, g in enumerate(tgt)}
+
+
+# ---------------------------------------------------------------- optimality certificates (any size)
+def _certificate(rows, n, m):
+    """Untrusted helper: exact (Fraction) Hungarian method on the zero-padded square matrix.  Returns row
+    potentials u, column potentials v (all >= 0, aff[i][j] <= u[i] + v[j]) and a witness pairing whose value is
+    sum(u) + sum(v).  Lean *checks* the certificate (`certOk`, theorem C07_cert_best); nothing here is trusted."""
+    N = max(n, m)
+    if N == 0 or n == 0 or m == 0:
+        return [Fraction(0)] * n, [Fraction(0)] * m, []
+    w = [[(max(rows[i][j], Fraction(0)) if i < n and j < m else Fraction(0)) for j in range(N)] for i in range(N)]
+    u = [Fraction(0)] * (N + 1)
+    v = [Fraction(0)] * (N + 1)
+    p = [0] * (N + 1)
+    way = [0] * (N + 1)
+    for i in range(1, N + 1):
+        p[0] = i
+        j0 = 0
+        minv = [None] * (N + 1)
+        used = [False] * (N + 1)
+        while True:
+            used[j0] = True
+            i0 = p[j0]
+            delta = None
+            j1 = None
+            for j in range(1, N + 1):
+                if not used[j]:
+                    cur = -w[i0 - 1][j - 1] - u[i0] - v[j]
+                    if minv[j] is None or cur < minv[j]:
+                        minv[j] = cur
+                        way[j] = j0
+                    if delta is None or minv[j] < delta:
+                        delta = minv[j]
+                        j1 = j
+            for j in range(N + 1):
+                if used[j]:
+                    u[p[j]] += delta
+                    v[j] -= delta
+                elif minv[j] is not None:
+                    minv[j] -= delta
+            j0 = j1
+            if p[j0] == 0:
+                break
+        while True:
+            j1 = way[j0]
+            p[j0] = p[j1]
+            j0 = j1
+            if j0 == 0:
+                break
+    big_u = [-u[i] for i in range(1, N + 1)]
+    big_v = [-v[j] for j in range(1, N + 1)]
+    c = min(big_v)
+    big_u = [x + c for x in big_u]
+    big_v = [x - c for x in big_v]
+    witness = [[p[j] - 1, j - 1] for j in range(1, N + 1)
+               if p[j] - 1 < n and j - 1 < m and rows[p[j] - 1][j - 1] > 0]
+    witness.sort()
+    return big_u[:n], big_v[:m], witness
+
+
+def _cert_args(a):
+    k = "cert"
+    if k not in a:
+        rows = [[frac(x) for x in row] for row in a["matrix"]]
+        u, v, w = _certificate(rows, a["n"], a["m"])
+        a[k] = {"u": [rat(x) for x in u], "v": [rat(x) for x in v], "witness": w}
+    return a[k]
+
+
+BRUTE = 5      # brute-force optimum (factorial) up to BRUTE x BRUTE in quick, 7 x 7 in thorough; beyond: certificate
+
+
+def _brute_limit(ctx):
+    return ctx.budget(BRUTE, 7)
+
+
+# ---------------------------------------------------------------- the solver's answer as an adversarial parameter
+_ORIENT = {"square_transposed": False}
+
+
+def _solver_stub(n, m, asg, seen=None):
+    """stands for linear_sum_assignment: returns the given pairs whatever the matrix.  A rewrite may hand the
+    solver the transposed matrix (and swap the answer back): the orientation is read off the shape, for square
+    matrices off a probe made by `_solver_selftest`; the answer is then given for the transposed problem."""
+    def solver(cost, *a, **kw):
+        shp = tuple(np.shape(cost))
+        if seen is not None:
+            seen.append(cost)
+        if n != m:
+            transposed = shp == (m, n)
+            if not transposed and shp != (n, m):
+                raise RuntimeError(f"solver stub: unexpected matrix shape {shp}")
+        else:
+            if shp != (n, m):
+                raise RuntimeError(f"solver stub: unexpected matrix shape {shp}")
+            transposed = _ORIENT["square_transposed"]
+        pairs = sorted((c, r) for r, c in asg) if transposed else [(r, c) for r, c in asg]
+        return np.array([x for x, _ in pairs], dtype=int), np.array([y for _, y in pairs], dtype=int)
+    return solver
+
+
+def _impl_solver(inp):
+    """the real match_geometries with compute_affinity replaced by a table lookup *and*
+    linear_sum_assignment replaced by a given answer"""
+    mat = [[_f(x) for x in row] for row in inp["matrix"]]
+    src, tgt, ids_s, ids_t = _stub_geoms(inp["n"], inp["m"])
+
+    def aff(g1, g2, *a, **kw):
+        return mat[ids_s[id(g1)]][ids_t[id(g2)]]
+    solver = _solver_stub(inp["n"], inp["m"], inp["assigned"], inp.get("_seen"))
+    with _patched(compute_affinity=aff, linear_sum_assignment=solver) as M:
+        out = list(M.match_geometries(src, tgt))
+    return {"val": _canon(out)}
+
+
+def _compare_solver(inp, io, mo):
+    c = _model("shape", {"n": inp["n"], "m": inp["m"], "matrix": inp["matrix"], "out": io.get("val", []),
+                         "assigned": inp["assigned"]})
+    if not c["valid"]:
+        # outside scipy's contract: the property says nothing; not compared, only tallied
+        if _CTX is not None:
+            same = ("raise" in io) == ("raise" in mo) and ("raise" not in io or io["raise"] == mo["raise"])
+            _CTX.tally("invalid solver answer: code and model " + ("agree" if same else "differ (not compared)"))
+        return None
+    if "raise" in io or "raise" in mo:
+        return "match_geometries raised on a valid assignment" if "raise" in io else "model raised"
+    if io["val"] != _sort_entries(mo["val"]):
+        return "match_geometries and selectMatches disagree on a given valid assignment"
+    if not c["all"]:
+        return "cover / positive pairs / reported affinity fail for a given valid assignment"
+    return None
+
+
+def _solver_args(inp):
+    return {"n": inp["n"], "m": inp["m"], "matrix": inp["matrix"], "assigned": inp["assigned"]}
 
 
 # ---------------------------------------------------------------- compare / monitor
@@ -162,22 +363,50 @@ def _mk_compare(args_of):
     return compare
 
 
+_XCHECK = [0]
+
+
 def _mk_holds(args_of, tol):
     def holds(ctx, inp, io):
         if "raise" in io:
             return "match_geometries raised " + str(io["raise"])
         a = args_of(inp)
         n, m = a["n"], a["m"]
-        ctx.tally(f"size:{n}x{m}")
+        ctx.tally(f"size:{n}x{m}" if max(n, m) <= 7 else f"size:{'8-12' if max(n, m) <= 12 else '13+'}")
         zero_pairs = sum(1 for r, c in a["assigned"] if frac(a["matrix"][r][c]) <= 0)
         if zero_pairs:
             ctx.tally("cases where scipy assigned a zero-affinity pair")
+        base = {"n": n, "m": m, "matrix": a["matrix"], "tol": rat(tol)}
+        lim = _brute_limit(ctx)
+        _XCHECK[0] += 1
+        big = n > lim or m > lim
+        if big or _XCHECK[0] % 16 == 0:
+            # optimum by certificate (Lean checks the certificate: C07_cert_best / C07_holds_by_cert)
+            cert = _cert_args(a)
+            cargs = dict(base, u=cert["u"], v=cert["v"], witness=cert["witness"])
+            vc = ctx.model("holds_cert", dict(cargs, out=io["val"]))
+            if not vc["cert"]:
+                ctx.tally("certificate rejected by Lean (harness helper; optimality then by brute force or not judged)")
+                if big:
+                    ctx.fail("obligation", "optimality certificate", inp=inp,
+                             detail="the harness could not produce a certificate Lean accepts")
+            else:
+                ctx.tally("optimality judged by certificate" if big else "certificate cross-checked with the brute force")
+        if big:
+            if not vc["cert"]:
+                return None
+            c = ctx.model("contract_cert", dict(cargs, assigned=a["assigned"]))
+            v = vc
+        else:
+            v = ctx.model("holds_contract", dict(base, out=io["val"], assigned=a["assigned"]))
+            c = {"valid": v["solver_valid"], "optimal": v["solver_optimal"], "value": v["solver_value"], "best": v["best"]}
+            if _XCHECK[0] % 16 == 0 and vc["cert"] and (vc["all"] != v["all"] or vc["best"] != v["best"]):
+                ctx.fail("obligation", "optimality certificate", inp=inp,
+                         detail="certificate verdict differs from the brute force (contradicts C07_holds_by_cert)")
         # scipy's contract, evaluated on what scipy returned for this matrix
-        c = ctx.model("contract", {"n": n, "m": m, "matrix": a["matrix"], "assigned": a["assigned"], "tol": rat(tol)})
         ctx.contract("ValidAssignment", c["valid"], inp, a["assigned"])
         ctx.contract("solver optimal within tolerance", c["optimal"], inp,
                      {"assigned": a["assigned"], "value": c["value"], "best": c["best"]})
-        v = ctx.model("holds", {"n": n, "m": m, "matrix": a["matrix"], "out": io["val"], "tol": rat(tol)})
         if v["all"]:
             return None
         bad = [k for k in ("cover_src", "cover_tgt", "entries", "optimal") if not v[k]]
@@ -199,12 +428,16 @@ def _nontrivial(inp, out):
 
 
 OPS = {
-    "match": Op("match", _impl_match, to_model=lambda i: {k: v for k, v in _matrix_of(i).items()},
+    "match": Op("match", _impl_match, to_model=_geoms_args, model_op="match_geoms",
                 compare=_mk_compare(_matrix_of), holds=_mk_holds(_matrix_of, TOL), determined=False,
                 nontrivial=_nontrivial, mode="exact"),
     "match_matrix": Op("match_matrix", _impl_matrix, to_model=_matrix_args, compare=_mk_compare(_matrix_args),
                        holds=_mk_holds(_matrix_args, Fraction(0)), determined=False, nontrivial=_nontrivial,
                        mode="exact", model_op="match", shrink=True),
+    # the solver's answer as a parameter (any answer scipy's documented contract allows, optimal or not):
+    # ties `selectMatches` to the code for the whole quantifier of the theorems, independent of scipy's choices
+    "match_solver": Op("match_solver", _impl_solver, to_model=_solver_args, compare=_compare_solver, determined=False,
+                       nontrivial=_nontrivial, mode="exact", model_op="match"),
 }
 
 
@@ -229,11 +462,16 @@ def _grid_geom(rng):
     if r < 0.55:
         lo = rng.choice([0, 1000, 2000])
         h = rng.choice([1000, 1000, 2000])
+        if rng.random() < 0.04:
+            w = 0          # zero-width box: area 0, affinity 0 even with itself
         return _box(s, lo, s + w, lo + h)
     if r < 0.8:
         return _interval(s, s + w)
     if r < 0.9:
-        return _stamp(s)
+        # quarter offsets: with time_buffer 1/4 or 1/2 different instants overlap partially
+        return _stamp(s + rng.choice([0, 0, Fraction(1, 4), Fraction(1, 2)]))
+    if r < 0.93:
+        return {"type": "Point", "coordinates": [rat(s + rng.choice([0, Fraction(1, 4)])), rat(Fraction(rng.choice([1000, 1000, 1001])))]}
     return gen_geom.gen_valid(rng, rng.choice(["Point", "LineString", "Polygon", "MultiPoint"]), tmax=4, fmax=4, k=1)
 
 
@@ -244,15 +482,29 @@ def _buffers(rng, geoms):
     return rng.choice([("1/100", "100"), ("0", "0"), ("1/4", "1/2")])
 
 
-def _grid_cases(rng, count, nmax):
+def _grid_cases(rng, count, nmax, nmin=0):
     for _ in range(count):
-        n = rng.randint(0, nmax)
-        m = rng.randint(0, nmax)
+        n = rng.randint(nmin, nmax)
+        m = rng.randint(nmin, nmax)
         pool = [_grid_geom(rng) for _ in range(rng.randint(1, 4))]
         src = [rng.choice(pool) if rng.random() < 0.5 else _grid_geom(rng) for _ in range(n)]
         tgt = [rng.choice(pool) if rng.random() < 0.5 else _grid_geom(rng) for _ in range(m)]
+        if n and m and rng.random() < 0.12:
+            # a sliver: two intervals (or boxes) overlapping by 2^-33 s (affinity about 6e-11, far above the tolerance)
+            t0 = rng.choice([0, 3, 20])
+            eps = Fraction(1, 2 ** rng.choice([20, 33]))
+            if rng.random() < 0.5:
+                a, b = _interval(t0, t0 + 1), _interval(t0 + 1 - eps, t0 + 2)
+            else:
+                a, b = _box(t0, 0, t0 + 1, 1000), _box(t0 + 1 - eps, 0, t0 + 2, 1000)
+            src[rng.randrange(n)] = a
+            tgt[rng.randrange(m)] = b
         tb, fb = _buffers(rng, src + tgt)
-        yield {"source": src, "target": tgt, "tb": tb, "fb": fb}
+        case = {"source": src, "target": tgt, "tb": tb, "fb": fb}
+        if n and rng.random() < 0.06:
+            # the same list object on both sides (zero buffers make instants and points degenerate: affinity 0 with themselves)
+            case = {"source": src, "target": src, "tb": rng.choice([tb, "0"]), "fb": rng.choice([fb, "0"]), "alias": True}
+        yield case
 
 
 _POOL = [_box(0, 0, 1, 1000), _box(0, 0, 2, 1000), _box(1, 0, 2, 1000), _box(5, 0, 6, 1000), _interval(0, 1),
@@ -317,8 +569,11 @@ def _random_matrices(rng, count, nmax):
             pool = ["0", "0", "1/4", "1/2", "1"]
         elif style < 0.6:
             pool = ["0", "1"]
-        elif style < 0.8:
+        elif style < 0.7:
             pool = ["0"] + [rat(Fraction(rng.randint(0, 16), 16)) for _ in range(3)]
+        elif style < 0.8:
+            # tiny but positive affinities (slivers): every one of them counts
+            pool = ["0", "1/1099511627776", "1/1073741824", "1/1048576", "1/2", "1"]
         else:
             pool = None
         vals = [rng.choice(pool) if pool else rat(Fraction(rng.randint(0, 1024), 1024)) for _ in range(n * m)]
@@ -330,18 +585,229 @@ def _random_matrices(rng, count, nmax):
         yield _matrix_case(n, m, vals)
 
 
+# ---------------------------------------------------------------- the solver's answer as a parameter: generators
+def _contract_assignments(n, m):
+    """every answer scipy's documented contract allows on an n x m matrix: min(n, m) pairs, rows ascending,
+    rows distinct, columns distinct"""
+    k = min(n, m)
+    for rows in itertools.combinations(range(n), k):
+        for cols in itertools.permutations(range(m), k):
+            yield [[r, c] for r, c in zip(rows, cols)]
+
+
+def _solver_cases_exhaustive(values, max_cells):
+    for n in range(4):
+        for m in range(4):
+            if n * m > max_cells:
+                continue
+            for vals in itertools.product(values, repeat=n * m):
+                for asg in _contract_assignments(n, m):
+                    yield dict(_matrix_case(n, m, vals), assigned=asg)
+
+
+def _solver_cases_random(rng, count, nmax):
+    for case in _random_matrices(rng, count, nmax):
+        n, m = case["n"], case["m"]
+        k = min(n, m)
+        rows = sorted(rng.sample(range(n), k))
+        cols = rng.sample(range(m), k)
+        r = rng.random()
+        asg = [[a, b] for a, b in zip(rows, cols)]
+        if r < 0.06 and k >= 1:
+            asg = asg + [[asg[0][0], (asg[0][1] + 1) % m]]          # a row twice (outside the contract)
+        elif r < 0.10 and k >= 1:
+            asg = [[asg[0][0], m]] + asg[1:]                         # column out of range
+        elif r < 0.2 and k >= 2:
+            asg = asg[:-1]                                           # a partial (still one-to-one) answer
+        elif r < 0.3:
+            rng.shuffle(asg)                                         # rows not ascending
+        yield dict(case, assigned=asg)
+
+
+# ---------------------------------------------------------------- Tie 1b at fixed shapes
+class _NumpyProxy:
+    """numpy, except that `zeros` (and `empty`/`full`) give object arrays so that symbolic numbers can be stored"""
+
+    def __getattr__(self, name):
+        return getattr(np, name)
+
+    @staticmethod
+    def zeros(shape=None, *a, **kw):
+        out = np.empty(shape, dtype=object)
+        out.fill(0)
+        return out
+
+    empty = zeros
+
+    @staticmethod
+    def array(obj, dtype=None, *a, **kw):
+        return np.array(obj, dtype=object)
+
+    asarray = array
+
+    @staticmethod
+    def full(shape, fill_value=0, *a, **kw):
+        out = np.empty(shape, dtype=object)
+        out.fill(fill_value)
+        return out
+
+
+class _Entries:
+    """a traced output: concrete indices, symbolic (or literal) affinities"""
+
+    def __init__(self, ents):
+        self.ents = ents
+
+    def lean(self):
+        from .. import symtrace as st
+        opt = lambda x: "none" if x is None else f"some {x}"
+        return "[" + ", ".join(f"⟨{opt(s_)}, {opt(t_)}, {a_.e if isinstance(a_, st.Sym) else st.lit(a_)}⟩"
+                               for s_, t_, a_ in self.ents) + "]"
+
+
+def _tree_lean(tree, indent=4):
+    """Lean term of a traced decision tree whose leaves are `_Entries`"""
+    if tree[0] == "ite":
+        pad = " " * indent
+        return (f"if {tree[1][0]} then\n{pad}{_tree_lean(tree[2], indent + 2)}\n"
+                f"{' ' * (indent - 2)}else\n{pad}{_tree_lean(tree[3], indent + 2)}")
+    leaf = tree[1]
+    return "some " + leaf[1].lean() if leaf[0] == "ok" else "none"
+
+
+def _sym_thunk(n, m, asg):
+    from ..symtrace import Sym
+    names = [[f"a{i}{j}" for j in range(m)] for i in range(n)]
+
+    def thunk():
+        import builtins
+        src, tgt, ids_s, ids_t = _stub_geoms(n, m)
+
+        def aff(g1, g2, *a, **kw):
+            return Sym.var(names[ids_s[id(g1)]][ids_t[id(g2)]])
+
+        solver = _solver_stub(n, m, asg)
+
+        class to_float(builtins.float):
+            """`float` inside the traced module: symbolic numbers pass through (as a dtype numpy reads it as object)"""
+
+            def __new__(cls, x=0.0, *a):
+                return x if isinstance(x, Sym) else builtins.float(x, *a)
+        with _patched(compute_affinity=aff, linear_sum_assignment=solver) as M:
+            had_np, old_np = hasattr(M, "np"), getattr(M, "np", None)
+            had_numpy, old_numpy = hasattr(M, "numpy"), getattr(M, "numpy", None)
+            if had_np:
+                M.np = _NumpyProxy()
+            if had_numpy:
+                M.numpy = _NumpyProxy()
+            M.float = to_float
+            try:
+                out = list(M.match_geometries(src, tgt))
+            finally:
+                del M.float
+                if had_np:
+                    M.np = old_np
+                if had_numpy:
+                    M.numpy = old_numpy
+        # canonical order (`sortEntries`: by source key, then target key; None first); stable like the insertion sort
+        key = lambda x: 0 if x is None else int(x) + 1
+        ents = [(None if s_ is None else int(s_), None if t_ is None else int(t_),
+                 a_ if isinstance(a_, Sym) else Fraction(a_)) for s_, t_, a_ in out]
+        ents.sort(key=lambda e: (key(e[0]), key(e[1])))
+        return _Entries(ents)
+    return [x for row in names for x in row], thunk
+
+
+def _sym_one(ctx, n, m, asg):
+    """`match_geometries` on an n x m matrix of *symbolic* affinities with the solver's answer fixed: every path
+    (one per sign pattern of the assigned entries) is traced on the real code and the resulting piecewise function
+    is proved equal to `selectMatches` for ALL rational matrix entries"""
+    from .. import symtrace as st
+    variables, thunk = _sym_thunk(n, m, asg)
+    name = f"ext_match_{n}x{m}_" + "_".join(f"{r}{c}" for r, c in asg) if asg else f"ext_match_{n}x{m}_none"
+    meta = {"op": "match_matrix"}
+    try:
+        res = st.trace(thunk, catch=())
+        tree = st.to_tree(res)
+        body = _tree_lean(tree)
+    except Exception as e:  # noqa: BLE001 - the tie cannot be re-established: a broken obligation, never a crash
+        from ..leanio import InfraError
+        if isinstance(e, InfraError):
+            raise
+        ctx.symbolic_ties[name] = {"error": repr(e)[:300]}
+        ctx.pre_failed.append(name)
+        ctx.fail("obligation", name, detail=f"symbolic trace of the current source failed: {e!r}", extra=meta)
+        return
+    ctx.symbolic_ties[name] = {"paths": len(res)}
+    args = " ".join(variables)
+    binder = f"({args} : Rat) " if variables else ""
+    matrix = "[" + ", ".join("[" + ", ".join(f"a{i}{j}" for j in range(m)) + "]" for i in range(n)) + "]"
+    assigned = "[" + ", ".join(f"({r}, {c})" for r, c in asg) + "]"
+    cases = " <;> ".join(f"by_cases h{r}{c} : a{r}{c} ≤ 0" for r, c in asg)
+    hyps = ", ".join(f"h{r}{c}" for r, c in asg)
+    simp = ("simp [" + (hyps + ", " if hyps else "") + f"{name}, selectMatches, assignLoop, matOfRows, emit, pairEntry, srcOnly, "
+            "tgtOnly, sortEntries, insertEntry, keyLe, entryKey, Except.toOption, List.range, List.range.loop, List.erase]")
+    tactic = (f"{cases} <;> ({simp}) <;> grind" if asg else f"{simp}")
+    src = (f"open SE SE.Matching in\ndef {name} {binder}: Option (List Entry) :=\n    {body}\n"
+           f"open SE SE.Matching in\ntheorem {name}_tie {binder}: {name} {args} = "
+           f"(selectMatches {n} {m} (matOfRows {matrix}) {assigned}).toOption.map sortEntries := by\n  {tactic}\n")
+    ctx.obligation(name, src, meta)
+
+
+def _stage_symbolic(ctx):
+    shapes = [(n, m) for n in range(4) for m in range(4)]
+    count = 0
+    for n, m in shapes:
+        asgs = list(_contract_assignments(n, m))
+        if n * m >= 9 and not ctx.thorough():
+            asgs = [asgs[0], asgs[-1], asgs[1 + ctx.rng.randrange(len(asgs) - 2)]]
+        for asg in asgs:
+            _sym_one(ctx, n, m, asg)
+            count += 1
+    ctx.exhaustive["symbolic"] = ("match_geometries traced on symbolic affinity matrices for every shape (n, m) in {0..3}^2 and "
+                                  "every answer scipy's contract allows (3 x 3: " +
+                                  ("all 6" if ctx.thorough() else "3 of 6") + f"): {count} equality obligations, each for all rational entries")
+
+
 # ---------------------------------------------------------------- run / search
 def _stub_selftest():
-    """the matrix operation replaces `compute_affinity` inside soundevent.evaluation.match; if the code no
-    longer reaches the affinity through that name the stub is ineffective and the stage must not run"""
+    """the matrix operation replaces `compute_affinity` where match_geometries looks it up; if the code no
+    longer reaches the affinity through one of those names the stub is ineffective and the stage must not run"""
     import soundevent.evaluation.match as M
-    if not hasattr(M, "compute_affinity") or not hasattr(M, "match_geometries"):
-        raise RuntimeError("soundevent.evaluation.match no longer exposes compute_affinity / match_geometries")
+    if not hasattr(M, "match_geometries"):
+        raise RuntimeError("soundevent.evaluation.match no longer exposes match_geometries")
     probe = {"n": 2, "m": 2, "matrix": [["1/4", "1"], ["1/2", "1/4"]]}
     out = _impl_matrix(probe)["val"]
     vals = sorted(e[2] for e in out if e[0] is not None and e[1] is not None)
     if vals != ["1", "1/2"]:
         raise RuntimeError(f"stub of compute_affinity is not effective (got {out})")
+
+
+def _solver_selftest():
+    """the two stubs must be effective; also learns whether the code hands the solver the transposed matrix"""
+    seen = []
+    probe = {"n": 2, "m": 2, "matrix": [["1/4", "1"], ["1/2", "1/4"]], "assigned": [[0, 0], [1, 1]], "_seen": seen}
+    _ORIENT["square_transposed"] = False
+    _impl_solver(probe)
+    if seen and abs(float(seen[0][0][1])) == 0.5 and abs(float(seen[0][1][0])) == 1.0:
+        _ORIENT["square_transposed"] = True      # answer the transposed problem from now on
+    out = _impl_solver(dict(probe, assigned=[[0, 1], [1, 0]], _seen=None))["val"]
+    if out != [[0, 1, "1"], [1, 0, "1/2"]]:
+        raise RuntimeError(f"stubs of compute_affinity / linear_sum_assignment are not effective (got {out})")
+
+
+def _cert_selftest(ctx):
+    """the (untrusted) certificate generator against the verified brute force on random small matrices"""
+    cases = list(_random_matrices(ctx.rng, 60, 4))
+    for c in cases:
+        a = dict(c)
+        cert = _cert_args(a)
+        r = ctx.model("holds_cert", {"n": a["n"], "m": a["m"], "matrix": a["matrix"], "tol": "0", "out": [],
+                                     "u": cert["u"], "v": cert["v"], "witness": cert["witness"]})
+        b = ctx.model("contract", {"n": a["n"], "m": a["m"], "matrix": a["matrix"], "assigned": [], "tol": "0"})
+        if not r["cert"] or r["best"] != b["best"]:
+            raise RuntimeError(f"certificate generator fails on {c}: {r} vs brute force {b['best']}")
+    ctx.tally("certificate generator self-test cases", len(cases))
 
 
 def _stage_matrices(ctx, nmax):
@@ -356,7 +822,18 @@ def _stage_matrices(ctx, nmax):
                                             if ctx.rng.random() < 0.2))
         ctx.exhaustive["match_matrix"] = ("all n x m matrices with n*m <= 6, (n, m) in {0..3}^2, entries in {0, 1/4, 1/2, 1}; "
                                           "a fifth of all 3 x 3 matrices over {0, 1/2, 1}")
+    ctx.run_cases(OPS["match_matrix"], _exhaustive_matrices(["0", "1/1073741824", "1"], 4, dims=2))
     ctx.run_cases(OPS["match_matrix"], _random_matrices(ctx.rng, ctx.budget(1500, 12000), nmax))
+    # beyond the brute force: optimality by certificate
+    ctx.run_cases(OPS["match_matrix"], _random_matrices(ctx.rng, ctx.budget(250, 1500), ctx.budget(12, 25)))
+
+
+def _stage_solver(ctx):
+    _solver_selftest()
+    ctx.run_cases(OPS["match_solver"], _solver_cases_exhaustive(["0", "1/2", "1"], ctx.budget(4, 6)))
+    ctx.exhaustive["match_solver"] = (f"all matrices over {{0, 1/2, 1}} with n*m <= {ctx.budget(4, 6)}, (n, m) in {{0..3}}^2, times every "
+                                      "answer scipy's contract allows (min(n, m) pairs, rows ascending, one-to-one)")
+    ctx.run_cases(OPS["match_solver"], _solver_cases_random(ctx.rng, ctx.budget(600, 6000), 4))
 
 
 def _stage_lists(ctx):
@@ -364,19 +841,41 @@ def _stage_lists(ctx):
     ctx.exhaustive["match"] = f"all source/target lists of length 0..2 over a pool of {ctx.budget(5, 6)} boxes/intervals"
 
 
+def _timed(ctx):
+    """ctx.stage with the wall time of each stage recorded in the evidence notes"""
+    import time
+    real = ctx.stage
+
+    def stage(name, fn, *a, **kw):
+        t = time.time()
+        try:
+            return real(name, fn, *a, **kw)
+        finally:
+            ctx.note(f"stage `{name}`: {time.time() - t:.1f} s")
+    return stage
+
+
 def run(ctx):
     global _CTX
     _CTX = ctx
     _CACHE.clear()
     nmax = ctx.budget(5, 7)
-    stub_ok = ctx.stage("stub of compute_affinity inside soundevent.evaluation.match", lambda: _stub_selftest() or True)
-    ctx.stage("corpus", ctx.run_corpus, OPS if stub_ok else {"match": OPS["match"]})
+    stage = _timed(ctx)
+    stage("certificate generator self-test", _cert_selftest, ctx)
+    stub_ok = stage("stub of compute_affinity inside soundevent.evaluation.match", lambda: _stub_selftest() or True)
+    stage("corpus", ctx.run_corpus, OPS if stub_ok else {"match": OPS["match"]})
     if stub_ok:
-        ctx.stage("affinity matrices through the real match_geometries (compute_affinity stubbed)",
+        stage("affinity matrices through the real match_geometries (compute_affinity stubbed)",
                   _stage_matrices, ctx, nmax)
-    ctx.stage("exhaustive short lists of real geometries", _stage_lists, ctx)
-    ctx.stage("tie-rich grid lists", lambda: ctx.run_cases(OPS["match"], _grid_cases(ctx.rng, ctx.budget(500, 5000), nmax)))
-    ctx.stage("free-mode lists", lambda: ctx.run_cases(OPS["match"], _free_cases(ctx.rng, ctx.budget(150, 2000), min(nmax, 5))))
+        stage("the solver's answer as a parameter (compute_affinity and linear_sum_assignment stubbed)",
+                  _stage_solver, ctx)
+        stage("symbolic affinities at fixed shapes", _stage_symbolic, ctx)
+    stage("exhaustive short lists of real geometries", _stage_lists, ctx)
+    stage("tie-rich grid lists", lambda: ctx.run_cases(OPS["match"], _grid_cases(ctx.rng, ctx.budget(500, 5000), nmax)))
+    stage("long grid lists (optimality by certificate)",
+              lambda: ctx.run_cases(OPS["match"], _grid_cases(ctx.rng, ctx.budget(60, 400), ctx.budget(10, 16), nmin=4)))
+    stage("free-mode lists", lambda: ctx.run_cases(OPS["match"], _free_cases(ctx.rng, ctx.budget(150, 2000), min(nmax, 5))))
+    stage("discharge", ctx.discharge, ["SoundeventModel.Matching"])
 
 
 def search(ctx, failures):
@@ -385,6 +884,8 @@ def search(ctx, failures):
         _stub_selftest()
         ctx.run_cases(OPS["match_matrix"], _exhaustive_matrices(["0", "1/2", "1"], 9))
         ctx.run_cases(OPS["match_matrix"], _random_matrices(ctx.rng, 6000, 5))
+        ctx.run_cases(OPS["match_matrix"], _random_matrices(ctx.rng, 600, 14))
     ctx.stage("search: matrices", matrices)
     ctx.stage("search: short lists", lambda: ctx.run_cases(OPS["match"], _exhaustive_lists(_POOL, 2)))
     ctx.stage("search: grid lists", lambda: ctx.run_cases(OPS["match"], _grid_cases(ctx.rng, 2000, 5)))
+    ctx.stage("search: long grid lists", lambda: ctx.run_cases(OPS["match"], _grid_cases(ctx.rng, 150, 12, nmin=3)))
